@@ -6,13 +6,14 @@ CONSTANTS
     Variant = "contract"
     MenuName = "c04"
     MaxPrefix = 2
-    PrefixIdx = {1, 2, 3, 4, 5, 6, 7, 8, 9, 10}
+    PrefixIdx = {1, 2, 3, 4, 5, 6, 7, 8, 9, 10, 11}
     MaxSteps = 3
     Durs = {1, 2, 3, 4}
-    ParIdx = {1, 2, 3, 4}
+    ParIdx = {1, 2, 3, 4, 5}
     MaxPts = 4
     EpsPts = TRUE
     ReadBefore = TRUE
+    Repeat = TRUE
     Lead = 2
 INIT PInit
 NEXT PNext
